@@ -239,18 +239,18 @@ add(Contract(
 
 add(Contract(
     'structural_fields:normalize_count_condition_into_a_callable',
-    params={'count_raw_condition': 'dyn', 'ghost_pkt': 'ref:Packet', 'ghost_k': 'kw'},
+    params={'count_raw_condition': 'dyn', 'ghost_pkt': 'ref:Packet', 'ghost_k': 'kw', 'ghost_raw': 'bytes', 'ghost_off': 'int'},
     ensures=[
         "iscallable(result)",
         # a callable is taken as it is
         "implies(iscallable(count_raw_condition), same(result, count_raw_condition))",
         # a constant count: the callable returns that constant
         "implies(not iscallable(count_raw_condition) and isint(count_raw_condition),"
-        "        cb(result, pkt=ghost_pkt, k=ghost_k) == count_raw_condition)",
+        "        cb(result, pkt=ghost_pkt, raw=ghost_raw, offset=ghost_off, k=ghost_k) == count_raw_condition)",
         # a field: the callable returns the field's current value in the packet
         "implies(not iscallable(count_raw_condition) and not isint(count_raw_condition)"
         "        and isinst(count_raw_condition, 'Field'),"
-        "        same(cb(result, pkt=ghost_pkt, k=ghost_k),"
+        "        same(cb(result, pkt=ghost_pkt, raw=ghost_raw, offset=ghost_off, k=ghost_k),"
         "             slot(ghost_pkt, asref(count_raw_condition, 'Field').field_name)))",
     ],
     raises={'ValueError': ["not iscallable(count_raw_condition) and not isint(count_raw_condition)"
@@ -361,3 +361,14 @@ add(Contract(
     'structural_fields:Move.init',
     params={'self': 'ref:Move', 'packet': 'ref:Packet', 'defaults': 'conf'},
     ensures=["hasslot(packet, self.field_name) == old(hasslot(packet, self.field_name))"], modifies=[]))
+
+
+# ---- BOUNDED stand-in (run-time twin only, never counted as proved): a bare field given as a condition is converted
+# (convert_a_field_raw_condition_into_a_boolean_unary_expression + compile_expr, both outside the VC generator) into a
+# callable that answers the truth value of the field's current value
+add(Contract('C08twin#structural_fields:normalize_raw_condition_into_a_callable',
+             target='structural_fields:normalize_raw_condition_into_a_callable',
+             params={'raw_condition': 'dyn', 'ghost_pkt': 'dyn', 'ghost_expected': 'dyn'},
+             ensures=["truth_agrees(result, ghost_pkt, ghost_expected)"],
+             raises={}, modifies=[], allocates=True, returns='dyn'))
+CONTRACTS['C08twin#structural_fields:normalize_raw_condition_into_a_callable'].twin_only = True
